@@ -211,8 +211,10 @@ def r6(ctx):
             if hb_ is None or depth == 0:
                 return False
             return bool(hb_.calls(CT)) or any(reads_ct_(k2.path, depth - 1) for k2 in hb_.calls(r'^cache::\w+$'))
-        reads_ct = sl.has_call(CT) or any(reads_ct_(c.path) for c in sl.calls if c.path)
-        tests_age = any(lib.body(c.path) is not None and (lib.body(c.path).calls(r'subsec_(nanos|micros|millis)$') or c.path.endswith('is_racy')) for c in sl.calls if c.path) or sl.has_call(r'subsec_(nanos|micros|millis)$')
+        from ..analysis import closure_calls
+        calls_ = list(sl.calls) + closure_calls(lib, b, sl)      # `incarnation_time(f).is_some_and(|t| is_racy(t, ..))`: the test is in the closure
+        reads_ct = any(c.matches(CT) for c in calls_) or any(reads_ct_(c.path) for c in calls_ if c.path)
+        tests_age = any(lib.body(c.path) is not None and (lib.body(c.path).calls(r'subsec_(nanos|micros|millis)$') or c.path.endswith('is_racy')) for c in calls_ if c.path) or any(c.matches(r'subsec_(nanos|micros|millis)$') for c in calls_)
         if reads_ct and tests_age:
             succ = [x for x in dict.fromkeys(t['tgts']) if b.blocks[x]['term']['k'] != 'unreach']
             skip = [x for x in succ if I.bb not in b.reachable(x) and x != I.bb]
@@ -310,6 +312,8 @@ def r2(ctx):
         return
     hbb = hits[0][0]
     need = {'modified_timestamp_ms': False, 'file_len': False}
+    from ..analysis import guards_target
+    cands = {}
     for cmp in comparisons(b):
         sa, sb = backslice(b, [cmp.a]), backslice(b, [cmp.b])
         for f in list(need):
@@ -320,26 +324,14 @@ def r2(ctx):
             cur = other.has_call(r'Metadata::modified$') if f == 'modified_timestamp_ms' else other.has_call(r'Metadata::len$')
             if not cur:
                 continue
-            br = branch_of(b, cmp)
             key = '%s|%s' % (P, f)
             if cmp.op not in ('==', '!='):
                 ctx.violation(rule, key, b.where(cmp.line), 'the cached %s is compared with `%s`: an entry is served although the current value differs (e.g. an older mtime after a restore): stale hash' % (f, cmp.op))
                 need[f] = True
                 continue
-            if br is None:
-                continue
-            sw, tt, ft = br
-            eq_side = tt if cmp.op == '==' else ft
-            ne_side = ft if cmp.op == '==' else tt
-            good = b.dominates(eq_side, hbb) and hbb not in b.reachable(ne_side)
-            ctx.check(good, rule, key, b.where(cmp.line), 'hit only if cached %s == current' % f, 'a hit is possible although %s differs' % f)
-            need[f] = True
-    for f, seen in need.items():
-        if not seen:
-            ctx.violation(rule, '%s|%s' % (P, f), b.where(), 'the lookup does not compare the cached %s with the current one' % f)
+            cands[f] = cmp
     # the key is the file identifier, and identifiers are handed out again as soon as a file is deleted: the entry must also carry something
     # that belongs to THIS incarnation of the inode and that a program cannot set (mtime can be set: tar, rsync -a, cp -p restore it)
-    inc = None
     for cmp in comparisons(b):
         sa, sb = backslice(b, [cmp.a]), backslice(b, [cmp.b])
         for cached, cur in ((sa, sb), (sb, sa)):
@@ -353,13 +345,18 @@ def r2(ctx):
                 return any(reads_incarnation(k2.path, depth - 1) for k2 in hb_.calls(r'^cache::\w+$'))
             curc = [k for k in cur.calls if k.matches(r'MetadataExt.*::(ctime|ctime_nsec)$|Metadata::created$|::(ctime|ctime_nsec|btime|created)$') or reads_incarnation(k.path)]
             if cf and curc and cmp.op in ('==', '!='):
-                br = branch_of(b, cmp)
-                if br:
-                    sw, tt, ft = br
-                    eq_side = tt if cmp.op == '==' else ft
-                    ne_side = ft if cmp.op == '==' else tt
-                    if b.dominates(eq_side, hbb) and hbb not in b.reachable(ne_side):
-                        inc = cmp
+                cands['incarnation'] = cmp
+    # every way to the hit passes all of these comparisons on their "equal" side (decided path-sensitively: `a != x || b != y => None`,
+    # `let unchanged = a == x && b == y; if unchanged {hit}`, early returns - all the same table)
+    guarded = guards_target(b, cands, hbb)
+    for f in need:
+        if f in cands:
+            ctx.check(guarded.get(f, False), rule, '%s|%s' % (P, f), b.where(cands[f].line), 'hit only if cached %s == current' % f, 'a hit is possible although %s differs' % f)
+            need[f] = True
+    for f, seen in need.items():
+        if not seen:
+            ctx.violation(rule, '%s|%s' % (P, f), b.where(), 'the lookup does not compare the cached %s with the current one' % f)
+    inc = cands.get('incarnation') if guarded.get('incarnation') else None
     # ... and that survives what does not change the contents: rename, chmod, chown, link / unlink of another name all update st_ctime - the stamp is the
     # BIRTH time where the file system records one (Metadata::created), the status-change time only as a fallback
     stamp_fns = [x for p_, x in lib.bodies.items() if p_.startswith('cache::') and '{' not in p_ and x.calls(r'MetadataExt.*::(ctime|ctime_nsec)$|Metadata::created$')]
@@ -467,7 +464,9 @@ def r4(ctx):
         if ok:
             # the closure computing the metadata is invoked (and_then) before the hashing call
             at = [c for c in b.calls(r'Option(::)?<.*>::and_then$') if m1 in {base_named_local(b, {'c': [c.dest[0], []]}), c.dest[0]} or c.dest[0] in backslice(b, [m1]).locals]
-            ok = any(b.dominates(c.bb, first_hash.bb) for c in at) if at else all(b.dominates(c.bb, first_hash.bb) for bd, c in mc if bd is b)
+            # ... or, called in the body itself (possibly under the `cache is in use` test), it is never reached from a hashing call
+            direct = [c for bd, c in mc if bd is b]
+            ok = any(b.dominates(c.bb, first_hash.bb) for c in at) if at else (bool(direct) and not any(c.bb in b.reachable(h.bb) for h in hs for c in direct))
         ctx.check(bool(ok), rule, P + '|metadata-before-read', first_hash.where(), 'metadata (mtime, length) is captured before the data is read', 'metadata is captured after reading: a change during hashing would be cached as current')
         # store only after success: dominated by the Ok edge of the hash result
         sw_ok = False
